@@ -665,7 +665,7 @@ pub fn run(run: &Run) {
     run.set_rule("corrupt", "cleanly closed directory from a generated history (rotation threshold 3..11, snapshots in part of the cases) + a second store for transplants, then 1..3 corruptions (bit flips, overwrite, truncate, append, duplicate/move/transplant a record, length-prefix rewrite 0/len±1/0x7fffffff/0xffffffff, key/value re-split keeping the tag, file deletion, key-file damage); non-trivial = the corruption hits a record that decides the final value of a key, or the recovered state differs from the undamaged final state");
     let sh = shards_for(run.tier);
     run.max_shrink.store(400, std::sync::atomic::Ordering::Relaxed);
-    run.prop_f("corrupt", run.tier.pick(4000, 100_000), sh, case, run_case);
+    run.prop_f("corrupt", run.tier.pick(4000, 100000), sh, case, run_case);
 }
 
 pub fn replay(run: &Run, sub: &str, case: &Value) -> Option<bool> {
